@@ -290,6 +290,8 @@ func runC12(r *rt.Run) {
 	})
 	// identity of objects is not part of the encoding: polygons sharing a Ring value answer as separately built ones
 	sharedRings(r, &pools{holed: holed}, "shared-ring-object")
+	// nor is the concrete type of a ring: a slice-backed Series, with and without closing vertex, from every start vertex
+	foreignRings(r, 4)
 	// inner shapes on either side of the 16-position shortcut (with / without
 	// closing vertex) x outers with notches, slots, holes and frames
 	bo, bi := poolBigInner(nil)
@@ -303,6 +305,9 @@ func runC12(r *rt.Run) {
 func evalC12(c *rt.Case) (bool, string, string, error) {
 	if c.Kind == "shared-ring" {
 		return evalSharedRing(c)
+	}
+	if c.Kind == "foreign-ring" {
+		return evalForeignRing(c)
 	}
 	if c.Kind != "pair" || c.X["move"] == "" {
 		return false, "", "", fmt.Errorf("not mine")
